@@ -295,6 +295,13 @@ def step (st : St) : List String → St × String
       | some (smp, cs) => (st.put id { s with ctx := cs }, s!"ok {smp}")
       | none => (st, s!"mismatch {cands.length}")
     | _, _, _ => (st, "bad-op")
+  | ["dial.trace", ticket, reads] =>
+    match fixed? ticket, reads.toNat? with
+    | some t, some n =>
+      let nm : ConnEv → String
+        | .arm => "arm" | .clear => "clear" | .write => "write" | .read => "read"
+      (st, "ok " ++ ",".intercalate ((dialTrace t n).map nm) ++ " " ++ boolStr (armedAfter (dialTrace t n) false))
+    | _, _ => (st, "bad-op")
   | ["st.reset"] => ({ st with store := ⟨[], none⟩, fileText := none }, "ok")
   | ["st.store", addr, raw, now, w] =>
     match unhex? raw, now.toInt?, fixed? w with
